@@ -189,6 +189,9 @@ def run(prop, tier, which):
         if prop == 'C12':
             from .. import mechbind
             mech_info = mechbind.merge_mech(work, V) + mechbind.select_candidates(work, V)
+        if prop == 'C01':
+            from .. import mechbind
+            mech_info = mechbind.add_mod(work, V)
         rc = V.finish(max_print=40)
         from collections import Counter
         srcs = Counter(c['src'].split(':')[0] for c in cases)
